@@ -11,14 +11,14 @@ from synrbl.confidence_prediction import ConfidencePredictor
 PART = {}
 H = "vf.harness.C13:"
 
-ENCODES = ["synrbl.confidence_prediction:ConfidencePredictor.predict"]
+ENCODES = ["synrbl.confidence_prediction:ConfidencePredictor.predict", "synrbl.balancing:Balancer._Balancer__run_pipeline"]
 EXPLANATION = (
     "The real ConfidencePredictor.predict is executed symbolically (CrossHair+z3, real-valued floats) on a batch "
     "of rows of every method with symbolic model outputs c in [0,1] and two symbolic thresholds t1<=t2; the "
     "feature extraction, pandas frame, numpy rounding and the xgboost model are stubs that hand predict an "
     "arbitrary number per MCS row. Every partition (row layout) is explored to path exhaustion."
 )
-BOUNDS = ["row layouts of <= 4 rows (0..2 mcs-based rows mixed with input-balanced, rule-based and unsolved rows); confidences and thresholds arbitrary reals in [0,1]"]
+BOUNDS = ["pipeline level: one reaction j>>q through the real pipeline (MCS succeeds, merge result symbolic), confidence and threshold in {0,1/4,..,1}, the same Balancer instance run with the symbolic threshold and then with threshold 0", "row layouts of <= 4 rows (0..2 mcs-based rows mixed with input-balanced, rule-based and unsolved rows); confidences and thresholds arbitrary reals in [0,1]"]
 STUBS = [
     "count_boundary_atoms_products_and_calculate_changes, calculate_chemical_properties -> identity (features cannot see the threshold: it is not an argument of either)",
     "pandas.DataFrame / column selection -> opaque frame; model.predict_proba -> arbitrary numbers in [0,1] per row; numpy.round -> identity",
@@ -223,11 +223,56 @@ def h_predict(c0: float, c1: float, t1: float, t2: float) -> bool:
     return True
 
 
+# ---------------------------------------------------------------- pipeline level: the threshold the Balancer is
+# asked to use at run time is the one that decides (one Balancer instance is reused with changing thresholds)
+def h_pipe(jC: int, jH: int, jO: int, jq: int, qC: int, qH: int, qO: int, qq: int,
+      wC: int, wH: int, wO: int, wq: int, xC: int, xH: int, xO: int, xq: int,
+      jjC: int, jjH: int, jjO: int, jjq: int, wwC: int, wwH: int, wwO: int, wwq: int,
+      m1: int, m2: int, f1: int, f2: int, c1: int, c2: int, thr: int) -> bool:
+    """
+    post: _
+    """
+    a = dict(locals())
+    from vf.harness import pipecore as pc
+
+    outs = []
+    for t in (thr, PART.get("thr2", 0)):
+        r = pc.explore(PART, dict(a), thr=t)
+        if r is None:
+            return True
+        outs.append(r[0])
+    tw = PART.get("twin")
+    for out, t in zip(outs, (thr, PART.get("thr2", 0))):
+        for row in out:
+            if row.get("solved_by") == "mcs-based":
+                if tw == "mcs":
+                    return False
+                if row.get("confidence") != c1:
+                    return False
+                if bool(row["solved"]) != (c1 >= t):
+                    return False
+                if not row["solved"] and (not isinstance(row.get("issue"), str) or "threshold" not in row["issue"]):
+                    return False
+    # rows that are not mcs-based are identical under both thresholds
+    for ra, rb in zip(outs[0], outs[1]):
+        if ra.get("solved_by") != "mcs-based" and rb.get("solved_by") != "mcs-based":
+            for k in ("reaction", "solved", "solved_by", "issue"):
+                va, vb = ra.get(k), rb.get(k)
+                if va != vb and not (pc.is_nan(va) and pc.is_nan(vb)):
+                    return False
+    return True
+
+
 def plan(tier):
     layouts = ["m", "mm", "imr", "umrm", "u", "ir", "miu"]
     if tier == "thorough":
         layouts += ["mmu", "rmim", "uxm", "mxm", "", "xmum"]
     P = [Part(H + "h_predict", {"layout": l}, "predict[%s]" % (l or "empty"), group="predict", timeout=600) for l in layouts]
+    for jq in ((-1, 0, 1) if tier == "thorough" else (0,)):
+        P.append(Part(H + "h_pipe", {"shape": ["j>>q"], "E": ["C", "H"], "K": 2, "thr2": 0, "fix": {"m1": 4, "jq": jq, "qq": 0, "jjq": 0}},
+                      "pipeline-threshold[j>>q|m=4,jq=%d]" % jq, group="pipeline", timeout=1800, path_timeout=200))
+    P.append(Part(H + "h_pipe", {"shape": ["j>>q"], "E": ["C", "H"], "K": 2, "thr2": 0, "twin": "mcs", "fix": {"m1": 4, "jq": 0, "qq": 0, "jjq": 0}},
+                  "pipeline-threshold.twin", kind="twin", group="pipeline", timeout=600))
     P.append(Part(H + "h_predict", {"layout": "mm", "twin": "demoted"}, "predict.twin[demoted]", kind="twin", group="predict"))
     P.append(Part(H + "h_predict", {"layout": "mm", "twin": "kept"}, "predict.twin[kept]", kind="twin", group="predict"))
     return P
